@@ -164,8 +164,15 @@ def one_case(rng, res):
         # neither when recording nor when matching
         d0 = lstrip[0]
         lstrip = [rng.choice(["./" + d0, d0 + "/", d0.rstrip("/") + "//", "zz/../" + d0])]
+    colon = None
+    if rng.random() < 0.25 and tree.get("out", ("d", {}))[0] == "d":
+        # a file whose name contains a colon (a tag, a drive-like prefix): a path like any other, also when listed by name
+        tree.setdefault("out", ("d", {}))[1]["img:latest"] = ("f", b"img %d\n" % rng.randrange(9))
+        colon = "out/img:latest"
     local_tree, edits = edit_tree(rng, tree)
     paths = gen_paths(rng, tree, local_tree)
+    if colon and lookup_is_file(local_tree, colon) and rng.random() < 0.8:
+        paths = [x for x in (paths or []) if x not in (".", "out")] + [colon]
     nested_files = [p_ for p_, n_ in T.all_paths(tree) if n_[0] == "f" and "/" in p_ and lookup_is_file(local_tree, p_)]
     if paths and paths != ["."] and nested_files and rng.random() < 0.35:
         # a file named explicitly, spelt with a doubled slash / a dot segment / a detour, and an exclude pattern with a
